@@ -949,7 +949,7 @@ def reference_fns():
         p = os.path.join(os.path.dirname(os.path.dirname(os.path.abspath(__file__))), 'reference_fns.json')
         if os.path.exists(p):
             d = json.load(open(p))
-            _REF[0] = {'sig': d['sig'], '*': set(d['all'])}
+            _REF[0] = {'sig': d['sig'], '*': set(d['all']), 'consts': set(d.get('consts', []))}
             for c, v in d.get('per_cfg', {}).items():
                 _REF[0][c] = set(v)
         else:
@@ -1064,6 +1064,12 @@ class Facts:
                 have = {b['path'] for b in raw['bodies'] if is_fn(b)}
                 new = sorted(have - ref['*'])
         import normalize
+        # a *new* named constant (`const NEEDS_DROP: bool = needs_drop::<U>();`) is written where it is read
+        newc = {b['path']: b for b in raw['bodies'] if b['kind'].startswith(('Const', 'AssocConst')) and b['promoted'] is None
+                and b['path'] not in ref.get('consts', set())}
+        if newc:
+            raw = dict(raw)
+            raw['bodies'] = [inline.inline_consts(b, newc) if b['kind'] in ('Fn', 'AssocFn', 'Closure') and b['promoted'] is None else b for b in raw['bodies']]
         if not new:
             raw = dict(raw)
             raws = {b['path']: b for b in raw['bodies']}
